@@ -46,6 +46,30 @@ CLAIMED = {
          "Decides clauses R16.1-R16.6: a local-source request is accepted only after checkSourceAvailability, a local destination only across exists/IsAvailable/CheckPermission, the target error becomes the begin-failed flag; in all governance FSM tables an approved logout ends in forbidden and nothing leads from forbidden to a usable status; an approved freeze/activate/logout of an appchain passes the matching cross-invoke with its result tested and the per-service operations run inside the loop; the service cache is fed only from successful receipts, reset on rollback, and every status-changing service entry posts the SERVICE event; no record loaded before a status change is written back after it. Not composed behaviour over histories.",
          "go/ssa + go/ast; bitxhub-core tables are read from the pinned module source; looplab/fsm trusted",
          "DESIGN.md section 5 C16"),
+ "C09": ("key-prefix table agreement (written / deleted / read) over CHA-reachable storage calls, hash-last and parent-link ordering rules, normalised height expressions",
+         "Decides clauses R09.1-R09.5: every index key prefix written per block is deleted (or rewritten) on rollback and every prefix read is written; every header field covered by BlockHeader.Hash (field set read from the pinned model source) is assigned before BlockHash = Hash() of the same block; ParentHash comes from currentBlockHash, which is advanced only after persisting, at construction, and in rollbackBlocks from the block at the rollback target; roots are computed over the executed transaction slice and the stored receipt slice, receipts frozen afterwards; persist and rollback count interchain txs the same way. Not blockfile internals.",
+         "go/ssa + CHA restricted to module types; bitxhub-kit storage/blockfile trusted",
+         "DESIGN.md section 5 C09"),
+ "C10": ("append-chain/loop analysis of hash inputs (sorted-slice rule), predicate agreement, injectivity of the preimage encoding, aliasing rule for big.Int values",
+         "Decides clauses R10.1-R10.4: each sha256 input is assembled by appends inside loops over slices sorted before the loop (never inside a map range or callback), leaves are element hashes in slice order; the state hash covers key and value, the account preimage covers address, account record and state hash, and hash/journal/commit select keys with the same changed-value predicate; the preimage encoding is checked for delimiters (known finding: key||value); no in-place arithmetic on balance objects obtained from getters. Not collision resistance.",
+         "go/ssa model; sha256/merkletree trusted",
+         "DESIGN.md section 5 C10"),
+ "C12": ("SSA ordering rules on the rollback functions, storage-kind table agreement between Commit and revertJournal, struct-field completeness of the cache purge",
+         "Decides clauses R12.1-R12.4: refusal returns are not reachable after any mutation; the chain rollback runs only after a successful state rollback; caches are cleared before any journal revert and clear() purges every lru layer; the kinds Commit writes are the kinds revertJournal restores (put and delete), journal record/max marker/data share one batch, each reverted height deletes its record and lowers the marker in the batch carrying the reverted data, captured journal fields = restored fields; prevJnlHash (from the target height's journal) and maxJnlHeight are stored on every successful path. Not value-level equality.",
+         "go/ssa model (defer-spilled results resolved); leveldb batch atomicity trusted",
+         "DESIGN.md section 5 C12"),
+ "C13": ("lookup-order must-pass-through, undo-log discipline derived from the ledger's own writers, key-space tagging of the Query merge map, cache fill/purge and snapshot structure rules",
+         "Decides clauses R13.1-R13.5: GetState consults dirty/origin/cache/db in order, each on the miss edge of the previous, remembering db results; every dirty-state writer journals (or only applies undo records / is journaled by all callers), previous values are read before the store, the changer object is never replaced; the Query merge map uses one key space and skips nil values; flush adds every dirty key to the cache on every path, creation revert removes the cached account; RevertToSnapshot reverts to the recorded index and truncates later revisions. Not LRU eviction or reopen.",
+         "go/ssa + CHA restricted to module types; golang-lru trusted",
+         "DESIGN.md section 5 C13"),
+ "C18": ("SSA guard-edge rules on admission / inclusion / promotion, append-vs-mark pairing, who-may-write rule for the batch sequence number",
+         "Decides clauses R18.1-R18.5: a transaction enters the insertion set only across nonce>=pending, pointer-not-seen and hash-not-known edges; every inclusion into a batch lies behind predecessor-batched or nonce==commit-nonce, and every appended key is marked in batchedTxs on every path; each append is followed by the size test, the bound is min(configured, ready); batchSeqNo has three writers and the increment is never followed by an error return; filterReady promotes only on nonce==demand with demand+1. History-dependent index consistency is not decided.",
+         "go/ssa model; google/btree iteration order trusted",
+         "DESIGN.md section 5 C18"),
+ "C19": ("SSA guard-edge rules on eviction, per-account scoping rule across goroutine closures, sibling agreement of removal sets, who-may-write rule for the ready counter",
+         "Decides clauses R19.1-R19.4: eviction only across age/not-batched/not-ready/parked edges; a per-account structure inside the loop over accounts never receives the whole account map; commit and eviction paths remove from the same five indices and drop the hash; the ready counter is written only by promote (+len ready), batch (-len / reset) and commit (clamp to ready size) and HasPendingRequest reports counter>0. Liveness and counter drift over histories are not decided.",
+         "go/ssa model",
+         "DESIGN.md section 5 C19"),
 }
 NOT_APPLICABLE = {}
 
